@@ -448,6 +448,13 @@ pub fn subjects(tier: &str) -> Vec<Subject> {
             cfg: big_blocks.clone(),
             ops: vec![Op::MultiPut { ks: vec![0, 1] }, fl.clone(), Op::Snap, Op::Ingest { items: vec![(0, IKind::Val), (1, IKind::Tomb)] }],
         });
+        let mut lz = big_blocks.clone().with_blob(16);
+        lz.lz4 = true;
+        v.push(Subject {
+            name: "lz4-blob".into(),
+            cfg: lz,
+            ops: vec![Op::Put { k: 0, big: true }, Op::Put { k: 1, big: false }, fl.clone(), Op::Snap, Op::Put { k: 1, big: true }, fl.clone()],
+        });
         let mut part = big_blocks.clone();
         part.index_partitioning = true;
         part.filter_partitioning = true;
